@@ -136,6 +136,7 @@ def run_history(fx, slog, rl, rec, r, retries, ncalls, script, sername, hh):
             seq_before = p._pyroSeq
             applied_before = len(rl.applied)
             outcome = None
+            after_failure = None
             t_call = time.monotonic()
             try:
                 if kind == "echo":
@@ -159,9 +160,24 @@ def run_history(fx, slog, rl, rec, r, retries, ncalls, script, sername, hh):
                 else:
                     items = []
                     it = p.stream(tok, 3)
+                    after_failure = None
                     try:
-                        for x in it:
-                            items.append(tuple(x))
+                        try:
+                            for x in it:
+                                items.append(tuple(x))
+                        except CE:
+                            # the iterator is asked once more after its failed fetch: it fails again, or it goes on with the stream (a returning
+                            # client within the linger period); it can only say "end of stream" if the server said so
+                            asked_before = rl.received.get(tok, 0)
+                            try:
+                                after_failure = ("item", tuple(next(it)))
+                            except StopIteration:
+                                after_failure = ("stop", rl.received.get(tok, 0) - asked_before)
+                            except CE:
+                                after_failure = ("comm",)
+                            except Exception as x2:
+                                after_failure = ("other", repr(x2))
+                            raise
                     finally:
                         try:
                             it.close()
@@ -208,6 +224,15 @@ def run_history(fx, slog, rl, rec, r, retries, ncalls, script, sername, hh):
                     want = [(tok, i) for i in range(3)]
                     if outcome[2] != want[:len(outcome[2])]:
                         bad = ("foreign-reply-accepted", "stream for %s delivered %r before failing" % (tok, outcome[2]))
+                    elif after_failure == ("stop", 0):
+                        bad = ("end-of-stream-nobody-reported", "stream for %s: after a fetch failed with %s (items so far %r) the iterator, asked again, reported the end of the stream "
+                               "without sending a request: an answer that belongs to no invocation" % (tok, outcome[1], outcome[2]))
+                    elif after_failure and after_failure[0] == "item" and (len(after_failure[1]) != 2 or after_failure[1][0] != tok):
+                        bad = ("foreign-reply-accepted", "stream for %s: asked again after a failed fetch the iterator delivered %r" % (tok, after_failure[1]))
+                    elif after_failure and after_failure[0] == "other":
+                        bad = ("unexpected-exception", "stream for %s: asked again after a failed fetch the iterator raised %s" % (tok, after_failure[1]))
+                    elif after_failure:
+                        rec.count("stream_iterators_asked_again_after_failure")
             elif outcome[0] == "other":
                 bad = ("unexpected-exception", "call %s (%s) raised %s, neither its own result/exception nor a communication error" % (tok, kind, outcome[1]))
             elif outcome[0] == "exc":
